@@ -102,8 +102,10 @@ def _strip_vis(h):
     return re.sub(r'^(pub(\([^)]*\))?\s+)', '', h)
 
 
-def find_block(src, header):
-    """Find the unique block whose header (text before '{') starts with `header` (normalised)."""
+def find_block(src, header, containing_fn=None):
+    """Find the unique block whose header (text before '{') starts with `header` (normalised). When several blocks
+    carry the same header (Rust allows any number of `impl T { .. }` blocks) and `containing_fn` is given, the one
+    that directly contains `fn <containing_fn>` is taken - it must be unique."""
     want = _strip_vis(norm(header))
     first = re.escape(want.split(' ')[0].split('<')[0])
     hits = []
@@ -132,6 +134,17 @@ def find_block(src, header):
                 exact.append(hits[-1])
     if len(hits) != 1 and len(exact) == 1:
         return exact[0]     # several headers start with the text, exactly one IS the text
+    if len(hits) > 1 and containing_fn:
+        pool = exact if len(exact) > 1 else hits
+        holding = []
+        for h in pool:
+            try:
+                find_fn(src, containing_fn, h[1] + 1, h[2])
+                holding.append(h)
+            except LostAnchor:
+                pass
+        if len(holding) == 1:
+            return holding[0]
     if len(hits) != 1:
         raise LostAnchor(f"block header {header!r}: {len(hits)} matches")
     return hits[0]
@@ -221,16 +234,18 @@ def extract_fn(repo, file, within, name):
         raise LostAnchor(f"{file}: {e}")
     start, end = 0, len(src)
     if within:
-        for w in within.split(' >> '):
-            s, b, c = find_block(src[:end], w) if start == 0 else _find_block_in(src, w, start, end)
+        ws = within.split(' >> ')
+        for k, w in enumerate(ws):
+            last = name if k == len(ws) - 1 else None
+            s, b, c = find_block(src[:end], w, last) if start == 0 else _find_block_in(src, w, start, end, last)
             start, end = b + 1, c
     s, brace, close = find_fn(src, name, start, end)
     return Item(file, within, name, src[s:brace], src[brace + 1:close], src.count('\n', 0, s) + 1)
 
 
-def _find_block_in(src, header, start, end):
+def _find_block_in(src, header, start, end, containing_fn=None):
     sub = src[start:end]
-    s, b, c = find_block(sub, header)
+    s, b, c = find_block(sub, header, containing_fn)
     return s + start, b + start, c + start
 
 
